@@ -142,6 +142,46 @@ pub fn check_text(ctx: &mut Ctx, t: &str) -> Result<(), Violation> {
     Ok(())
 }
 
+/// Texts that chess programs and files put where a move is expected (null moves, castling and
+/// result notations, placeholders): none of them is a coordinate move, and whichever of them the
+/// library chooses to accept must still obey the prefix rule.
+pub const TOKENS: [&str; 44] = [
+    "0000", "00000", "0000q", "000", "null", "NULL", "(none)", "none", "(null)", "--", "-", "@@@@", "Z0", "pass", "....", "...", "O-O", "O-O-O", "0-0", "0-0-0", "o-o", "o-o-o", "1-0", "0-1",
+    "1/2-1/2", "*", "e.p.", "", " ", "a1a1", "h8h8", "e1g1", "e8c8", "e7e8", "e7e8=Q", "e7e8=q", "e2-e4", "e2e4+", "e2e4#", "Pe2e4", "P@e4", "N@f3", "bestmove e2e4", "e2e4 e7e5",
+];
+
+const SHORT_A: &str = "abcdefgh0123456789qrbnkpQRBNKPO-=+#x. @()_/*\u{e9}";
+const SHORT_B: &str = "abcdefgh0123456789qrbn-O ";
+
+/// Every string of up to `len` characters over `alphabet` whose index falls to this shard: only
+/// strings that parse (or panic) go through the full `check_text`.
+pub fn check_short_strings(ctx: &mut Ctx, alphabet: &str, len: usize, shard: usize, shards: usize) -> Result<(), Violation> {
+    let a: Vec<char> = alphabet.chars().collect();
+    let n = a.len() as u64;
+    let total = n.pow(len as u32);
+    let mut t = String::with_capacity(8);
+    let mut i = shard as u64;
+    let mut parsed = 0u64;
+    while i < total {
+        t.clear();
+        let mut x = i;
+        for _ in 0..len {
+            t.push(a[(x % n) as usize]);
+            x /= n;
+        }
+        let quiet = matches!(guarded(|| (ChessMove::from_str(&t).is_ok(), Square::from_str(&t).is_ok())), Ok((false, false)));
+        if !quiet {
+            parsed += 1;
+            check_text(ctx, &t)?;
+        }
+        i += shards as u64;
+    }
+    ctx.evals_add(total / shards as u64);
+    ctx.count("short_strings_enumerated", total / shards as u64);
+    ctx.count("short_strings_accepted_as_move_or_square", parsed);
+    Ok(())
+}
+
 /// Mutations of a valid rendering: truncation at every offset, insertion of an arbitrary
 /// character (often multi-byte) at every offset, duplication, suffixes.
 #[derive(Clone, Debug)]
@@ -217,6 +257,21 @@ pub fn run(cfg: &Cfg) -> i32 {
                 engine::run_one(ctx, |ctx| check_square_value(ctx, s))?;
             }
         }
+        // texts other software writes in the place of a move, alone and wrapped
+        if shard == 0 {
+            for tok in TOKENS {
+                for t in [tok.to_string(), format!(" {}", tok), format!("{} ", tok), format!("{}\n", tok), format!("e2e4{}", tok), format!("{}e2e4", tok)] {
+                    engine::run_one(ctx, |ctx| check_text(ctx, &t))?;
+                }
+            }
+            ctx.class("text:notation-tokens");
+        }
+        // complete enumeration of the short strings: lengths 0-4 over 45 characters, length 5 over 25
+        for len in 0..=4usize {
+            engine::run_one(ctx, |ctx| check_short_strings(ctx, SHORT_A, len, shard, cfg.shards))?;
+        }
+        engine::run_one(ctx, |ctx| check_short_strings(ctx, SHORT_B, 5, shard, cfg.shards))?;
+        ctx.class("text:all-short-strings");
         let strat = text_strategy();
         engine::pbt(ctx, seedf(1), cfg.per_shard(16_000_000, 200_000_000), &strat, |ctx, t: &String| check_text(ctx, t))?;
         Ok(())
@@ -224,11 +279,11 @@ pub fn run(cfg: &Cfg) -> i32 {
     engine::finish(
         report,
         EvidenceSpec {
-            rule: "cases = all 20480 move values and 64 squares (render compared with independently computed text, parsed back), then generated strings: regex-shaped near-moves (also two squares followed by 1-4 characters that notations put after a move: promotion letters in either case, = + # x, digits, punctuation; upper-case files; embedded spaces), arbitrary printable Unicode, valid renderings mutated (truncated at every offset, a character - often multi-byte - inserted / substituted / appended at every offset, doubled, one character removed), short strings over a move-like alphabet. For every string ChessMove/Square/File/Rank::from_str must not panic and a successful move or square parse must render to a prefix of the input. evaluations = values + strings. Non-trivial = move value with a promotion, or a string that is non-ASCII or not 4/5 bytes long; distinct = fingerprints of values / strings.".into(),
+            rule: "cases = all 20480 move values and 64 squares (render compared with independently computed text, parsed back), the texts other chess software writes where a move is expected (null-move, castling, result and placeholder notations, alone and wrapped), every string of 0-4 characters over a 45-character alphabet (files, digits, piece letters in both cases, notation punctuation, one two-byte letter: 4.2 M strings) and of 5 characters over a 25-character one (9.8 M), then generated strings: regex-shaped near-moves (also two squares followed by 1-4 characters that notations put after a move: promotion letters in either case, = + # x, digits, punctuation; upper-case files; embedded spaces), arbitrary printable Unicode, valid renderings mutated (truncated at every offset, a character - often multi-byte - inserted / substituted / appended at every offset, doubled, one character removed), short strings over a move-like alphabet. For every string ChessMove/Square/File/Rank::from_str must not panic and a successful move or square parse must render to a prefix of the input. evaluations = values + strings. Non-trivial = move value with a promotion, or a string that is non-ASCII or not 4/5 bytes long; distinct = fingerprints of values / strings.".into(),
             assumptions: vec!["none beyond the Rust standard library's string handling".into()],
             trusted_base: vec!["proptest 1.11 (regex string strategies)".into()],
             exhaustive: None,
-            extra: json!({"exhaustive_subdomain": "round trip of all 64*64*5 move values and 64 squares is complete; the string part is sampled"}),
+            extra: json!({"exhaustive_subdomain": "round trip of all 64*64*5 move values and 64 squares is complete; all strings of <= 4 characters over the 45-character alphabet and of 5 over the 25-character one are enumerated; longer strings are sampled"}),
         },
     )
 }
